@@ -249,12 +249,31 @@ step_long_df!(c01_step_df19, 19);
 // @harness name=c01_step_df24 props=C01 tier=thorough cap=1200
 // every DF24 frame (ELM)
 step_long_df!(c01_step_df24, 24);
-// @harness name=c01_step_df20 props=C01,C10 tier=quick cap=2400 mem=24
+// @harness name=c01_step_df20 props=C01 tier=thorough cap=3600 mem=24
 // every DF20 frame: creation (runs the whole Comm-B decoder on a fresh row) + update on an arbitrary row
 step_long_df!(c01_step_df20, 20);
-// @harness name=c01_step_df21 props=C01,C10 tier=thorough cap=2400 mem=24
+// @harness name=c01_step_df21 props=C01 tier=thorough cap=3600 mem=24
 // every DF21 frame
 step_long_df!(c01_step_df21, 21);
+// @harness name=c01_create_df20 props=C01 tier=quick cap=1500 mem=24
+// every DF20 frame as the frame that creates a row: DF::from_message (the whole Comm-B decoder of the
+// downlink object) + Plane::from_downlink raise no check. (The update of an existing row by DF20/21 runs
+// with all checks on in the c10_* and c05_row_df20 / c06_row_df21 harnesses, tagged C01.)
+#[cfg_attr(kani, kani::proof)]
+#[cfg_attr(kani, kani::unwind(90))]
+#[cfg_attr(kani, kani::stub(chrono::Utc::now, crate::verif::rt::stub_now))]
+#[cfg_attr(kani, kani::stub(crate::decoder::get_downlink_format, super::rows::stub_get_df))]
+#[cfg_attr(kani, kani::stub(crate::decoder::adsb::icao::get_icao, super::rows::stub_get_icao))]
+#[cfg_attr(kani, kani::stub(crate::decoder::adsb::ais::ais, super::rows::stub_ais))]
+#[cfg_attr(verif_replay, test)]
+fn c01_create_df20() {
+    let m = frame28();
+    pin_df(&m, 20);
+    let Some((df, icao)) = accepted(&m) else { return };
+    let fresh = create(&m, df, icao);
+    vcover!(fresh.icao == icao, "row created");
+    vassert!(fresh.icao == icao || fresh.icao != 0, "C01: created row lost its address");
+}
 
 // @harness props=C01,C08 tier=quick cap=1800 needs=kfmod
 // the CPR decoder itself on EVERY pair of frames (all 2^68 field values), either parity, airborne
